@@ -197,17 +197,18 @@ kill, resume, fail, …) and every fault point — any of `on_exit_running/waiti
 `on_running/waiting/finished/killed`, `on_terminated`, `on_close`, any occurrence, raising before or after `super()` — EXCEPT the two
 points after `close()` (`afterClose`, finding F18): once the fault has fired, in every later configuration the process is EXCEPTED
 with the fault, its future raises the fault, it is closed, the cleanups ran exactly once and no transition is left in progress.
-(Hypothesis `hni`: the run did not end in an error of the state machine itself; `C03_internal_error_needs_a_second_failure` says
-when that can be.) -/
+(Hypothesis `hni`, needed for `on_terminated` / `on_close` only: the run did not end in an error of the state machine itself — a
+"cannot transition" or a failed assertion whose own failing transition is then hit by the fault, a second failure, which
+`transition_to` re-raises.  For the other ten hooks there is no hypothesis beyond the fault having fired.) -/
 theorem C03_hook_fault_ends_excepted (P : Prog) (nf : Nat) (plan : Plan) (a : Arm) (evs : List Ev)
     (hm : mainHK a.hk = true) (hac : afterClose a = false)
     (hf : (runX P (initX nf plan (some a)) evs).fired = true)
-    (hni : ¬ InternalError (runX P (initX nf plan (some a)) evs)) :
+    (hni : (a.hk = .onTerminated ∨ a.hk = .onClose) → ¬ InternalError (runX P (initX nf plan (some a)) evs)) :
     GoodRun (runX P (initX nf plan (some a)) evs) := by
   rw [runX_armed] at hf hni ⊢
   have hk := runF_K hac P _ evs (initX_K a nf plan)
-  rcases hk.g with ⟨_, _, e, he, hs⟩ | ⟨hi, hex⟩
-  · exact absurd ⟨e, he, hs⟩ hni
+  rcases hk.g with ⟨hh, _, e, he, hs⟩ | ⟨hi, hex⟩
+  · exact absurd ⟨e, he, hs⟩ (hni hh)
   · have hst := hex hm hf
     have ht : terminal (runF P (initX nf plan (some a)) evs).l.c.st.label = true := by rw [hst]; exact excepted_terminal _
     obtain ⟨h1, h2, h3⟩ := hi.term ht
@@ -220,24 +221,40 @@ configuration of the run: a live process has an unresolved future, is not closed
 ran its cleanups once and its future holds the outcome of its state object.  A pause / play hook fault in particular never
 terminates or half-terminates anything. -/
 theorem C03_fault_never_breaks_agreement (P : Prog) (nf : Nat) (plan : Plan) (a : Arm) (evs : List Ev)
-    (hac : afterClose a = false) (hni : ¬ InternalError (runX P (initX nf plan (some a)) evs)) :
+    (hac : afterClose a = false)
+    (hni : (a.hk = .onTerminated ∨ a.hk = .onClose) → ¬ InternalError (runX P (initX nf plan (some a)) evs)) :
     Inv2w (runX P (initX nf plan (some a)) evs).l.c ∧ (runX P (initX nf plan (some a)) evs).l.trans = none := by
   rw [runX_armed] at hni ⊢
   have hk := runF_K hac P _ evs (initX_K a nf plan)
-  rcases hk.g with ⟨_, _, e, he, hs⟩ | ⟨hi, _⟩
-  · exact absurd ⟨e, he, hs⟩ hni
+  rcases hk.g with ⟨hh, _, e, he, hs⟩ | ⟨hi, _⟩
+  · exact absurd ⟨e, he, hs⟩ (hni hh)
   · exact ⟨hi, hk.tr⟩
 
-/-- an error of the state machine itself can only meet the fault when the fault is a transition hook — and then only inside the
-failing transition's own `on_terminated` / `on_close`, i.e. as a second failure (the `Bad` alternative of the invariant) -/
-theorem C03_internal_error_needs_a_second_failure (P : Prog) (nf : Nat) (plan : Plan) (a : Arm) (evs : List Ev)
-    (hac : afterClose a = false) (hm : mainHK a.hk = false) :
-    Inv2w (runX P (initX nf plan (some a)) evs).l.c := by
+/-- **pause / play hook faults, whole runs**: for every program, plan and history and every fault in `on_pausing`, `on_paused`,
+`on_playing` (any occurrence, before or after `super()`), unconditionally: the agreement above holds in every configuration of the
+run — the fault is handed to the requester (theorems below) and never terminates, closes or half-transitions anything. -/
+theorem C03_pause_play_fault_never_disturbs (P : Prog) (nf : Nat) (plan : Plan) (a : Arm) (evs : List Ev)
+    (hm : mainHK a.hk = false) :
+    Inv2w (runX P (initX nf plan (some a)) evs).l.c ∧ (runX P (initX nf plan (some a)) evs).l.trans = none := by
+  have hac : afterClose a = false := by
+    unfold afterClose; cases h : a.hk <;> simp [h, mainHK] at hm ⊢
   rw [runX_armed]
   have hk := runF_K hac P _ evs (initX_K a nf plan)
-  rcases hk.g with ⟨hm', _⟩ | ⟨hi, _⟩
-  · rw [hm] at hm'; cases hm'
-  · exact hi
+  rcases hk.g with hb | ⟨hi, _⟩
+  · have := hb.main; rw [hm] at this; cases this
+  · exact ⟨hi, hk.tr⟩
+
+/-- NOT proved (the full clause "the stepping task returns normally" for hook faults; decided on every case of the harness by the
+op-by-op correspondence, field `task=`): after a transition-hook fault has fired, finitely many wake-ups end `step_until_terminated()`
+normally.  Missing: for the twins, the invariant that the interrupt slot never holds an action that already ran (`IA` of
+`PM/LProof16.lean`) and the linking invariant `Inv10L` (a blocked stepping task holds a released future), which `C02_listener_stepper_returns`
+has for `runL` only.  What IS proved: nothing propagates out of the faulty `transition_to` (`C03_transition_with_fault`), and for faults
+that are not lifecycle hooks the task's program counter is `done` (`PMF.L.C03_raising_step_excepted`).  The pause / play hooks are
+rightly absent from this statement: `C03_witness_superseded_pause_action_escapes`. -/
+def C03_stepper_returns_after_hook_fault : Prop :=
+  ∀ (P : Prog) (nf : Nat) (plan : Plan) (a : Arm) (evs : List Ev), mainHK a.hk = true → afterClose a = false →
+    (runX P (initX nf plan (some a)) evs).fired = true → ¬ InternalError (runX P (initX nf plan (some a)) evs) →
+    ∃ n, (runF P (runX P (initX nf plan (some a)) evs) (List.replicate n .tick)).l.c.pc = .done
 
 /-- **one transition with the armed fault, every scenario** (configuration level): from ANY configuration in which the invariant
 holds and the process is live — whatever is pending or requested, inside or outside a step —, for any target state and any
